@@ -594,7 +594,8 @@ class Sim:
                         return True
                     # its result was processed: only a race inside on_hard_timeout
                     # (after the scanner's own ready() test) excuses the kill
-                    return j.result_phase == ('B', getattr(self, 'scan_step', None))
+                    return j.result_phase in (('B', getattr(self, 'scan_step', None)),
+                                              ('C', getattr(self, 'scan_step', None)))
                 if not any(justifies(j) for j in self.jobs.values()):
                     self.viol({'C05'}, 'term_signal_without_expired_hard_limit', pid=w.pid)
                 return
@@ -1140,7 +1141,7 @@ class Sim:
             new_cbs = j.cb['timeout'][cb_before.get(j.jid, 0):]
             if any(c[0] is False for c in new_cbs) and j.kind == 'apply' and \
                     j.parts[0]['ready_proc'] and j.obs is not None and j.obs[0] != 'tle' and \
-                    j.result_phase != ('B', self.scan_step):
+                    j.result_phase not in (('B', self.scan_step), ('C', self.scan_step)):
                 self.viol({'C05'}, 'hard_timeout_handling_for_finished_job', job=j.jid,
                           callbacks=new_cbs, outcome=j.obs)
             if any(c[0] is True for c in new_cbs) and j.kind == 'apply' and j.hard and \
@@ -1189,11 +1190,16 @@ class Sim:
         import inspect
         M = sys.monitoring
         bp = self.bp
-        where = self.rng.choice(['A', 'B'])
+        where = self.rng.choice(['A', 'B', 'B', 'C', 'C', 'C'])
         try:
             if where == 'A':
                 fn = bp.TimeoutHandler.handle_timeouts
                 needle = 'ack_time = job._time_accepted'
+            elif where == 'C':
+                # (C) inside ApplyResult._set, before its mutex is taken: the
+                # other resolver (the job's own READY) runs _set to completion
+                fn = bp.ApplyResult._set
+                needle = 'with self._mutex'
             else:
                 fn = bp.TimeoutHandler.on_hard_timeout
                 needle = 'raise TimeLimitExceeded'
@@ -1209,6 +1215,12 @@ class Sim:
 
         def on_line(c, ln):
             if ln == line and not fired[0] and sim.sent_fifo:
+                if where == 'C':
+                    # only when the next pending message is this job's own result
+                    me = sys._getframe(1).f_locals.get('self')
+                    nxt = sim.sent_fifo[0][0]
+                    if not (nxt[0] == 1 and nxt[1][0] == getattr(me, '_job', None)):
+                        return
                 fired[0] = True
                 step_kind = sim.cur_step_kind
                 sim.stat('interleaved_result_inside_scan_' + where)
